@@ -161,7 +161,16 @@ pub fn child() {
     let case: Value = serde_json::from_str(&std::fs::read_to_string(&args[2]).unwrap()).unwrap();
     std::panic::set_hook(Box::new(|_| {}));
     let r = std::panic::catch_unwind(|| {
-        TestRunner::default().build(build_config(&case["build"]), |ctx| run_body(ctx, case["body"].as_array().unwrap()));
+        // the runner is a temporary, a static shared by the tests of a binary (never dropped), or leaked
+        static SHARED: std::sync::LazyLock<TestRunner> = std::sync::LazyLock::new(TestRunner::default);
+        match case["runner"].as_str() {
+            Some("static") => SHARED.build(build_config(&case["build"]), |ctx| run_body(ctx, case["body"].as_array().unwrap())),
+            Some("leaked") => {
+                let r: &'static TestRunner = Box::leak(Box::new(TestRunner::default()));
+                r.build(build_config(&case["build"]), |ctx| run_body(ctx, case["body"].as_array().unwrap()));
+            }
+            _ => TestRunner::default().build(build_config(&case["build"]), |ctx| run_body(ctx, case["body"].as_array().unwrap())),
+        }
     });
     if let Err(e) = &r {
         let msg = e.downcast_ref::<String>().cloned().or_else(|| e.downcast_ref::<&str>().map(ToString::to_string)).unwrap_or_default();
